@@ -96,6 +96,7 @@ func AppendSnapshot(b []byte, s *slip.Scope) []byte {
 	b = appendSnapshotPackages(b, s)
 	b = appendSnapshotConstants(b, s)
 	b = appendSnapshotFlavors(b, s)
+	b = appendSnapshotClasses(b, s)
 	b = appendSnapshotVars(b, s)
 	b = appendSnapshotFunctions(b, s)
 
@@ -222,6 +223,54 @@ func appendSnapshotFlavors(b []byte, s *slip.Scope) []byte {
 	for _, f := range fa {
 		b = append(b, '\n')
 		b = pp.Append(b, s, f.LoadForm())
+		// The methods, daemons, and whoppers defined for the flavor itself.
+		for _, name := range f.MethodNames() {
+			for _, daemon := range []string{":whopper", ":before", ":primary", ":after"} {
+				if dml := f.DefMethodList(string(name.(slip.Symbol)), daemon, false); 0 < len(dml) {
+					b = append(b, '\n')
+					b = pp.Append(b, s, dml)
+				}
+			}
+		}
+	}
+	return b
+}
+
+// appendSnapshotClasses appends the classes and conditions defined with
+// defclass and define-condition, a class after the classes it inherits from.
+func appendSnapshotClasses(b []byte, s *slip.Scope) []byte {
+	var ca []slip.Class
+	for _, p := range slip.AllPackages() {
+		if isCorePackage(p) {
+			continue
+		}
+		for _, c := range p.AllClasses() {
+			if _, isFlavor := c.(*flavors.Flavor); isFlavor || c.Pkg() != p {
+				continue // a flavor or inherited
+			}
+			if c.LoadForm() != nil { // not built in
+				ca = append(ca, c)
+			}
+		}
+	}
+	sort.Slice(ca, func(i, j int) bool { return ca[i].Name() < ca[j].Name() })
+	done := map[slip.Class]bool{}
+	var add func(c slip.Class)
+	add = func(c slip.Class) {
+		if done[c] {
+			return
+		}
+		done[c] = true
+		for _, super := range ca {
+			if super != c && c.Inherits(super) {
+				add(super)
+			}
+		}
+		b = append(b, '\n')
+		b = pp.Append(b, s, c.LoadForm())
+	}
+	for _, c := range ca {
+		add(c)
 	}
 	return b
 }
@@ -293,6 +342,11 @@ func appendSetq(b []byte, s *slip.Scope, vv *slip.VarVal) (out []byte) {
 func ppValue(v slip.Object) (pv slip.Object) {
 	pv = v
 	switch tv := v.(type) {
+	case slip.Symbol:
+		// The value is the symbol, not the value of a variable with that name.
+		if 0 < len(tv) && tv[0] != ':' && !strings.EqualFold(string(tv), "t") {
+			pv = slip.List{slip.Symbol("quote"), tv}
+		}
 	case slip.List:
 		if 0 < len(tv) {
 			pv = slip.List{slip.Symbol("quote"), tv}
